@@ -24,6 +24,38 @@ static void ev_dist_all(H3Index a, const CellVec *all) {
     }
     fputs("]}\n", vt_out);
 }
+/* far targets: origin inside a pentagon base cell (non-zero leading digit), targets up to K steps away */
+static int lead_of(H3Index h) { int res = (int)((h >> 52) & 15); for (int r = 1; r <= res; r++) { int d = (int)((h >> (3 * (15 - r))) & 7); if (d) return d; } return 0; }
+/* targets stratified by (base cell, leading digit): up to `per` cells of every class present in the K-disk */
+static void ev_dist_classes(H3Index a, int K, int per) {
+    int64_t sz; maxGridDiskSize(K, &sz); H3Index *d = calloc(sz, sizeof(H3Index));
+    if (gridDisk(a, K, d)) { free(d); return; }
+    static int cnt[128 * 8]; memset(cnt, 0, sizeof cnt);
+    fputs("{\"e\":\"distFar\",\"a\":", vt_out); vt_word(a); fprintf(vt_out, ",\"k\":%d,\"t\":[", K);
+    int first = 1; int64_t start = (int64_t)vt_randn(sz);
+    for (int64_t i = 0; i < sz; i++) {
+        H3Index b = d[(start + i * 7919) % sz]; if (!b) continue;
+        int key = getBaseCellNumber(b) * 8 + lead_of(b); if (cnt[key] >= per) continue; cnt[key]++;
+        int64_t x = -7, xr = -7; H3Error r = gridDistance(a, b, &x), rr = gridDistance(b, a, &xr);
+        fprintf(vt_out, "%s{\"b\":", first ? "" : ","); first = 0; vt_word(b);
+        fprintf(vt_out, ",\"r\":%u,\"d\":%d,\"rr\":%u,\"dr\":%d}", r, r ? -7 : (int)x, rr, rr ? -7 : (int)xr);
+    }
+    fputs("]}\n", vt_out); free(d);
+}
+static void ev_dist_far(H3Index a, int K, int nt) {
+    int64_t sz; maxGridDiskSize(K, &sz); H3Index *d = calloc(sz, sizeof(H3Index)); int *dd = calloc(sz, sizeof(int));
+    if (gridDiskDistances(a, K, d, dd)) { free(d); free(dd); return; }
+    fputs("{\"e\":\"distFar\",\"a\":", vt_out); vt_word(a); fprintf(vt_out, ",\"k\":%d,\"t\":[", K);
+    int first = 1, tries = 0, got = 0;
+    while (got < nt && tries++ < nt * 50) {
+        int64_t q = (int64_t)vt_randn(sz); if (!d[q]) continue;
+        if (dd[q] < K / 3 && vt_randn(4)) continue;            /* prefer far targets */
+        int64_t x = -7, xr = -7; H3Error r = gridDistance(a, d[q], &x), rr = gridDistance(d[q], a, &xr);
+        fprintf(vt_out, "%s{\"b\":", first ? "" : ","); first = 0; vt_word(d[q]);
+        fprintf(vt_out, ",\"r\":%u,\"d\":%d,\"rr\":%u,\"dr\":%d}", r, r ? -7 : (int)x, rr, rr ? -7 : (int)xr); got++;
+    }
+    fputs("]}\n", vt_out); free(d); free(dd);
+}
 static void ev_localij(H3Index o, H3Index h) {
     CoordIJ ij = {-7, -7}; H3Error r = cellToLocalIj(o, h, 0, &ij);
     H3Index back = VT_SENTINEL; H3Error rb = r ? 99 : localIjToCell(o, &ij, 0, &back);
@@ -80,6 +112,39 @@ int main(int argc, char **argv) {
     } else if (argc == 5 && !strcmp(argv[1], "c09")) {
         int quick = argv[2][0] == 'q'; vt_seed(strtoull(argv[3], 0, 10) + 9); vt_open(argv[4]);
         static const int EXT[] = {INT_MAX, INT_MIN, INT_MAX - 1, INT_MIN + 1, 1 << 30, -(1 << 30), 1 << 20, -(1 << 20), 65536, -65536, 3000, -3000};
+        /* far pairs out of pentagon base cells: the unfolding tables matter only across base cells */
+        { static const int KS[] = {0, 8, 16, 24, 40, 40, 40, 40, 40};
+          H3Index p0[12]; getPentagons(0, p0);
+          for (int res = 1; res <= (quick ? 5 : 8); res++) for (int pi = 0; pi < 12; pi++) {
+              if (quick && ((pi + res) % 4)) continue;
+              int bc = getBaseCellNumber(p0[pi]);
+              for (int lead = 2; lead <= 6; lead++) {
+                  if (quick && ((lead + pi + res) % 2)) continue;
+                  uint64_t h = ((uint64_t)1 << 59) | ((uint64_t)res << 52) | ((uint64_t)bc << 45);
+                  int z = (int)vt_randn(res);                  /* leading zeros */
+                  for (int r = 1; r <= 15; r++) { uint64_t dg = r > res ? 7 : r <= z ? 0 : r == z + 1 ? (uint64_t)lead : vt_randn(7); h |= dg << (3 * (15 - r)); }
+                  if (isValidCell(h)) ev_dist_far(h, KS[res], quick ? 40 : 120);
+              }
+          } }
+        /* the pentagon unfolding tables, class by class: origins with each leading digit inside each pentagon base cell and
+           origins in each neighbouring base cell, against targets of every (base cell, leading digit) class within K */
+        { H3Index p0[12]; getPentagons(0, p0); uint64_t sd = strtoull(argv[3], 0, 10);
+          for (int res = 2; res <= (quick ? 2 : 4); res++) for (int pi = 0; pi < 12; pi++) {
+              if (quick && ((pi + sd) % 3)) continue;
+              int bc = getBaseCellNumber(p0[pi]); int K = res == 2 ? 16 : res == 3 ? 22 : 30;
+              for (int lead = 2; lead <= 6; lead++) {
+                  uint64_t h = ((uint64_t)1 << 59) | ((uint64_t)res << 52) | ((uint64_t)bc << 45);
+                  int z = (int)vt_randn(res);
+                  for (int r = 1; r <= 15; r++) { uint64_t dg = r > res ? 7 : r <= z ? 0 : r == z + 1 ? (uint64_t)lead : vt_randn(7); h |= dg << (3 * (15 - r)); }
+                  if (isValidCell(h)) ev_dist_classes(h, K, quick ? 2 : 4);
+              }
+              H3Index nb[7] = {0}; gridDisk(p0[pi], 1, nb);
+              for (int q = 0; q < 7; q++) if (nb[q] && nb[q] != p0[pi]) {
+                  uint64_t h = ((uint64_t)1 << 59) | ((uint64_t)res << 52) | ((uint64_t)getBaseCellNumber(nb[q]) << 45);
+                  for (int r = 1; r <= 15; r++) { uint64_t dg = r > res ? 7 : vt_randn(7); h |= dg << (3 * (15 - r)); }
+                  if (isValidCell(h)) ev_dist_classes(h, K, quick ? 2 : 4);
+              }
+          } }
         for (int res = 0; res <= 15; res++) {
             CellVec cv = {0};
             cv_pentagon_strata(&cv, res, quick ? 1 : 2); cv_random_cells(&cv, res, quick ? 6 : 30); if (res >= 2) cv_seam_cells(&cv, res, quick ? 1 : 3);
